@@ -107,6 +107,10 @@ fn too_small(e: &StunWriteError) -> Option<(usize, usize)> {
 fn attr_paths(acc: &mut Acc, case: &Case, w: &dyn AttributeWrite, want: &[u8], label: &str) {
     let needed = want.len();
     let raw_bytes = w.to_raw().to_bytes();
+    let via_from: Vec<u8> = Vec::<u8>::from(w.to_raw());
+    if via_from != raw_bytes {
+        viol!(acc, P, &format!("vec-from-raw/{label}"), case, "Vec::<u8>::from(RawAttribute) differs from RawAttribute::to_bytes()", fmt_bytes(&raw_bytes), fmt_bytes(&via_from));
+    }
     if raw_bytes != want {
         viol!(acc, P, &format!("to_raw-bytes/{label}"), case, "to_raw().to_bytes() is not the reference encoding (type, value length, value, zero padding)", fmt_bytes(want), fmt_bytes(&raw_bytes));
     }
